@@ -23,6 +23,9 @@ CHECKS = {
     "C05": dict(tech="linear reference dictionary in lock-step inside the harness + per-operation allocator balance (m_set_memhook) under ASan/UBSan; adversarial key sets mined from the hash (same home slot, clusters wrapping the table end, growth)",
                 text="Random operation sequences over all flag combinations are compared call-by-call with a linear dictionary, including exactly-once visiting under removal during iteration, destructor argument identity and the allocation balance of every put/remove (private key copies). Key sets are adversarial by construction; sequences are sampled.",
                 ref="C05"),
+    "C06": dict(tech="stress workload on ASan and TSan builds with guarded hooks in thpool.c driving seeded delay injection and spurious wake-ups; monitors: per-task counters/stamps, concurrency gauge, pool-touched-after-free hook monitor, allocator balance, quiescence-based deadlock detector; TSan/ASan reports",
+                text="Thousands of perturbed schedules per run over all pool flavours are observed by online monitors (exactly-once, argument identity, wait-all/wait-current completion relative to the stamp at which free returned, no pool access after free, gauge <= threads, logical deadlock criterion) plus the race detector. Schedules are sampled: the evidence reports distinct interleaving signatures seen.",
+                ref="C06"),
 }
 
 NOT_YET = "check not built yet in this round (work in progress, see DESIGN.md §3 for the planned monitor)"
